@@ -108,7 +108,7 @@ def build(inp):
     names = ["P:initial"] + ["P:step%d" % (i + 1) for i in range(len(obs) - 1)]
     deep = any(c[0] in ("set", "append", "pop", "bitset", "change") and c[1] > 0 for c in inp["cmds"])
     c = Case(inp, coq, obs, names, nontrivial=deep, kind=inp["t"][0])
-    c.why = alias_check(inp)
+    c.why = alias_check(inp) or lazy_disagreement(inp, obs)
     return c
 
 
